@@ -891,3 +891,21 @@ func vSHA1(b []byte) []byte {
 	h := sha1.Sum(b)
 	return h[:]
 }
+
+func vB64Std(b []byte) string { return base64.StdEncoding.EncodeToString(b) }
+
+// vForgeStateRedirect keeps the nonce part of a state parameter and replaces the redirect part.
+func vForgeStateRedirect(state, redirect string, enc bool) string {
+	raw := state
+	if enc {
+		d, _ := base64.RawURLEncoding.DecodeString(state)
+		raw = string(d)
+	}
+	if i := strings.Index(raw, ":"); i >= 0 {
+		raw = raw[:i+1] + redirect
+	}
+	if enc {
+		return base64.RawURLEncoding.EncodeToString([]byte(raw))
+	}
+	return raw
+}
